@@ -177,6 +177,12 @@ func noConv(v ssa.Value) ssa.Value {
 // carryTemplate checks analysis H on fn for the given cell: on every path there is exactly one store
 // B' = X − out with X = in + B (B loaded before any store) and the function returns int(out) of the
 // same out. This is the shape that makes Σ out = Σ in − B_final + B_0 an identity of real arithmetic.
+// carryTerms remembers, per carry store, the term added to the carried value ("rate" in due = rate + carry), as
+// resolved by the last carryTemplate run.
+var carryTerms = map[*ssa.Store]an.FV{}
+
+func isRootFrame(f *an.Frame) bool { return f == nil || f.Parent == nil }
+
 func carryTemplate(c *core.Ctx, r *core.Report, fn *ssa.Function, k cell, what string) bool {
 	key := core.FuncName(fn) + "#carry(" + k.name + ")"
 	stores := k.stores(fn)
@@ -202,29 +208,41 @@ func carryTemplate(c *core.Ctx, r *core.Report, fn *ssa.Function, k cell, what s
 		}
 	}
 	for _, st := range stores {
-		sub, isSub := noConv(st.Val).(*ssa.BinOp)
+		// through helpers: the new carry may be one result of a helper that computes (emitted, due − emitted)
+		q := an.RootFV(fn, st.Val).Resolve(nil)
+		sub, isSub := q.V.(*ssa.BinOp)
 		if !isSub || sub.Op != token.SUB {
 			ok = false
 			r.Violation(key+"#shape", an.Pos(c, st), "%s is set to %s, not to (due − emitted): the long-run total is not conserved", k.name, an.D().Of(st.Val))
 			continue
 		}
-		x, out := noConv(sub.X), noConv(sub.Y)
-		add, isAdd := x.(*ssa.BinOp)
-		okX := isAdd && add.Op == token.ADD && (k.loadOf(noConv(add.X)) != k.loadOf(noConv(add.Y)))
+		x := an.FV{V: sub.X, F: q.F}.Resolve(nil)
+		out := an.FV{V: sub.Y, F: q.F}.Resolve(nil).V
+		add, isAdd := x.V.(*ssa.BinOp)
+		okX := false
+		var term an.FV
+		if isAdd && add.Op == token.ADD {
+			l, rr := an.FV{V: add.X, F: x.F}.Resolve(nil), an.FV{V: add.Y, F: x.F}.Resolve(nil)
+			lc, rc := k.addrIs(l.V) && isRootFrame(l.F), k.addrIs(rr.V) && isRootFrame(rr.F)
+			okX = lc != rc
+			term = rr
+			if rc {
+				term = l
+			}
+		}
 		if !okX {
 			ok = false
-			r.Violation(key+"#due", an.Pos(c, st), "the amount due (%s) is not rate + carried %s: the carry is computed from a value that does not include the previous remainder", an.D().Of(x), k.name)
+			r.Violation(key+"#due", an.Pos(c, st), "the amount due (%s) is not rate + carried %s: the carry is computed from a value that does not include the previous remainder", an.D().Of(x.V), k.name)
 			continue
 		}
-		// the load of the cell precedes every store
-		var ld ssa.Value = noConv(add.X)
-		if !k.loadOf(ld) {
-			ld = noConv(add.Y)
-		}
-		for _, s2 := range stores {
-			if an.Dominates(s2, ld.(ssa.Instruction)) {
-				ok = false
-				r.Violation(key+"#stale", an.Pos(c, s2), "%s is overwritten before it is read", k.name)
+		carryTerms[st] = term
+		// the cell is read before it is overwritten
+		for _, ld := range k.loads(fn) {
+			for _, s2 := range stores {
+				if an.Dominates(s2, ld) {
+					ok = false
+					r.Violation(key+"#stale", an.Pos(c, s2), "%s is overwritten before it is read", k.name)
+				}
 			}
 		}
 		// returns after this store return int(out)
@@ -234,9 +252,7 @@ func carryTemplate(c *core.Ctx, r *core.Report, fn *ssa.Function, k cell, what s
 				continue
 			}
 			nRet++
-			rv := noConv(ret.Results[0])
-			cv, isConv := rv.(*ssa.Convert)
-			if !isConv || noConv(cv.X) != out {
+			if an.RootFV(fn, ret.Results[0]).Resolve(nil).V != out {
 				ok = false
 				r.Violation(key+"#emitted", an.Pos(c, ret), "the function returns %s but the carry was computed against %s: what is emitted differs from what the remainder accounts for", an.D().Of(ret.Results[0]), an.D().Of(out))
 			}
